@@ -144,7 +144,12 @@ def main(argv):
             violations.append(f)
     import replay
     viol_lines = []
+    n_k = 0
     for f in violations:
+        if f['engine'] == 'kani':
+            n_k += 1
+            if n_k > 2:
+                f = dict(f, skip_playback=True)   # counterexample playback for the first two Kani failures only
         path, found = replay.make_replay(prop, f, seed)
         viol_lines.append(f'VIOLATION property={prop} replay={path}' + ('' if found else ' no-failing-input-found'))
     for kf, f in known_hits:
